@@ -91,6 +91,16 @@ fn level() -> u64 {
     wirefilter::verif::panic_catcher_level()
 }
 
+struct UnwindPoint(bool);
+
+impl Drop for UnwindPoint {
+    fn drop(&mut self) {
+        if self.0 && std::thread::panicking() {
+            sched::yield_now("unwinding");
+        }
+    }
+}
+
 /// Interprets steps from the shared cursor; returns `Some(idx)` when a `Return` closes the
 /// current frame, `None` when the steps are exhausted.
 fn exec(steps: &[Step], cur: &Cell<usize>, depth: usize, tag: usize, with_points: bool) -> Option<usize> {
@@ -119,7 +129,12 @@ fn exec(steps: &[Step], cur: &Cell<usize>, depth: usize, tag: usize, with_points
                 },
             },
             Step::Enter => {
-                let r = catch_panic(AssertUnwindSafe(|| exec(steps, cur, depth + 1, tag, with_points)));
+                let r = catch_panic(AssertUnwindSafe(|| {
+                    // a scheduling point while a panic unwinds through this frame: after the hook
+                    // recorded the panic, before catch_panic builds its error text
+                    let _unwinding = UnwindPoint(with_points);
+                    exec(steps, cur, depth + 1, tag, with_points)
+                }));
                 match r {
                     Ok(Some(v)) => log(Obs::FrameOk(v)),
                     Ok(None) => log(Obs::FrameEnd),
@@ -276,12 +291,15 @@ pub fn run(tier: Tier, seed: u64) -> i32 {
     let run = Run::new(ID, "model_checking", tier, seed);
     run.assume("precondition of the property: the catcher's hook is installed (after a sentinel hook); fallback mode Abort aborts the process by design and is not driven");
     install_hooks();
-    let max_len = tier.pick(5usize, 7usize);
+    // every caught panic captures and symbolises a backtrace (kernel-bound: mapping the binary);
+    // more than a few concurrent interpreters only contend
+    let workers = ncpu().min(4);
+    let max_len = tier.pick(5usize, 6usize);
     let na = ALPHABET.len();
     let mut sequences = 0u64;
     for len in 0..=max_len {
         let jobs = na.pow(len as u32);
-        par_for(jobs, ncpu(), |code| {
+        par_for(jobs, workers, |code| {
             let steps = seq_from_code(code, len, &ALPHABET);
             let want = model(&steps);
             let got = run_on_fresh_thread(steps.clone(), 0);
@@ -346,7 +364,7 @@ pub fn run(tier: Tier, seed: u64) -> i32 {
         let (mut bfs_states, mut bfs_transitions) = (1u64, 0u64);
         for _d in 1..=max_depth {
             let cands: Vec<Vec<Step>> = frontier.iter().flat_map(|h| ALPHABET.iter().map(move |s| { let mut x = h.clone(); x.push(*s); x })).collect();
-            par_for(cands.len(), ncpu(), |k| {
+            par_for(cands.len(), workers, |k| {
                 let steps = &cands[k];
                 let want = model(steps);
                 let got = run_on_fresh_thread(steps.clone(), 0);
@@ -375,7 +393,7 @@ pub fn run(tier: Tier, seed: u64) -> i32 {
     }
 
     // ---- two threads: every pair of short sequences x every interleaving at step granularity ----
-    let (la, lb) = tier.pick((2usize, 2usize), (3usize, 3usize));
+    let (la, lb) = tier.pick((2usize, 2usize), (3usize, 2usize));
     let seqs = |max: usize| -> Vec<Vec<Step>> {
         let mut v = Vec::new();
         for len in 1..=max {
@@ -385,12 +403,32 @@ pub fn run(tier: Tier, seed: u64) -> i32 {
         }
         v
     };
-    let (sa, sb) = (seqs(la), seqs(lb));
+    // catching has to be switched on before anything is caught: every sequence of the bound's
+    // length over the other four steps is also run behind a leading `enable`
+    let behind_enable = |len: usize| -> Vec<Vec<Step>> {
+        let rest: Vec<Step> = SMALL.iter().copied().filter(|s| *s != Step::Enable).collect();
+        (0..rest.len().pow(len as u32))
+            .map(|code| {
+                let mut v = vec![Step::Enable];
+                v.extend(seq_from_code(code, len, &rest));
+                v
+            })
+            // without a frame the leading `enable` changes nothing observable
+            .filter(|v| v.contains(&Step::Enter))
+            .collect()
+    };
+    let (mut sa, mut sb) = (seqs(la), seqs(lb));
+    sa.extend(behind_enable(2));
+    sb.extend(behind_enable(2));
+    sa.sort();
+    sa.dedup();
+    sb.sort();
+    sb.dedup();
     let pairs: Vec<(usize, usize)> = (0..sa.len()).flat_map(|a| (0..sb.len()).map(move |b| (a, b))).collect();
     let schedules = std::sync::atomic::AtomicU64::new(0);
     let points = std::sync::atomic::AtomicU64::new(0);
     // schedules spawn threads of their own: keep the outer parallelism modest
-    par_for(pairs.len(), (ncpu() / 2).max(1), |pi| {
+    par_for(pairs.len(), (workers / 2).max(1), |pi| {
         let (a, b) = pairs[pi];
         let (ta, tb) = (sa[a].clone(), sb[b].clone());
         let want = [model(&ta), model(&tb)];
@@ -402,6 +440,7 @@ pub fn run(tier: Tier, seed: u64) -> i32 {
         let mut check = |x: &sched::Execution<Vec<Obs>>, choices: &[usize]| {
             for t in 0..2 {
                 if x.results[t] != want[t] {
+                    run.count("two_thread_mismatches", 1);
                     run.violation(
                         format!("{ID}:two-threads:{ta:?}:{tb:?}:t{t}"),
                         format!("threads {ta:?} || {tb:?}: thread {t} observed {:?}, reference {:?}; schedule {:?}", x.results[t], want[t], sched::format_schedule(&x.trace)),
